@@ -17,6 +17,49 @@ def with_older(cat, mask):
     return Catalogue("%s-old%d" % (cat.name, mask), shapes_, list(cat.enums.values()))
 
 
+def with_older_inner(cat, inner, mask):
+    """catalogue + a copy of every shape under the name <name>Old in which the shape `inner` has lost the fields selected by the bit mask
+    (the older schema of a *nested* type: the unknown fields then sit inside sub-messages, list elements, map values and oneof members)"""
+    from ..shapes import F
+
+    out = list(cat.shapes.values())
+    for sh in cat.shapes.values():
+        fields = []
+        for i, f in enumerate(sh.fields):
+            if sh.name == inner and (mask >> i) & 1:
+                continue
+            fields.append(F(f.name, f.number, f.kind, f.label, group=f.group, msg=(f.msg + "Old") if f.msg else None, enum=f.enum, key=f.key, wraps=f.wraps))
+            for extra in ("narrow",):
+                if hasattr(f, extra):
+                    setattr(fields[-1], extra, getattr(f, extra))
+        out.append(Shape(sh.name + "Old", fields))
+    return Catalogue("%s-inner-%s-old%d" % (cat.name, inner, mask), out, list(cat.enums.values()))
+
+
+def h_evolution_inner(env):
+    """newer -> bytes -> reader/writer whose schema of a nested type is older -> bytes -> newer reader: unchanged"""
+    base = catalogue.get(env.params["cat"])
+    cat = with_older_inner(base, env.params["inner"], env.params["mask"])
+    mod = shapes.build_bp(cat)
+    val = shapes.gen_value(env, cat, "M", b=bounds(env.tier, env.params))
+    newer = sm.to_bp(mod, cat, "M", val)
+    data = bytes(newer)
+    env.observe("bytes", data)
+    old = mod.MOld().parse(data)
+    data2 = bytes(old)
+    env.observe("re-emitted", data2)
+    env.check("older-len", old.__len__() == len(data2))
+    back = mod.M().parse(data2)
+    exp = sm.canon_of_value(cat, "M", val)
+    env.check("newer-reads-back-equal", back == newer)
+    env.check("newer-reads-back-value", sm.canon_equal(cat, "M", sm.canon_of_bp(cat, "M", back), exp))
+    env.check("newer-re-encodes-to-the-original-length", back.__len__() == len(data))
+    # a copy of the older reader's message relays the same bytes
+    import copy
+
+    env.check("deep-copy-of-the-older-message-relays-the-same-bytes", bytes(copy.deepcopy(old)) == data2)
+
+
 def h_evolution(env):
     """newer -> bytes -> older reader/writer -> bytes -> newer reader: unchanged"""
     base = catalogue.get(env.params["cat"])
@@ -137,6 +180,10 @@ def units(tier):
     for kind in ("int32", "string", "message", "bytes", "double", "enum"):
         for label in catalogue.LABELS:
             u.append(("evolution[s1 %s %s drop=1]" % (kind, label), h_evolution, {"cat": ["s1", kind, label], "mask": 1}))
+    for name, inner in (("nested", "Leaf"), ("nested", "Mid"), ("repmsg", "Leaf"), ("mapmsg", "Leaf"), ("oneofs", "Leaf"), ("optionals", "Leaf"), ("recursive", "M")):
+        n = len(catalogue.get(["s2", name]).shapes[inner].fields)
+        for mask in sorted({(1 << n) - 1, 1, 1 << (n - 1)}):
+            u.append(("evolution-of-nested-type[s2 %s: %s drop=%s]" % (name, inner, bin(mask)[2:].zfill(n)), h_evolution_inner, {"cat": ["s2", name], "inner": inner, "mask": mask}))
     for name in ("mixed", "oneofs", "nested", "packed"):
         u.append(("unknown-runs[s2 %s x2]" % name, h_unknown_runs, {"cat": ["s2", name], "n": 2}))
     for kind, label in (("int32", "singular"), ("string", "repeated"), ("message", "oneof"), ("sint64", "repeated")):
